@@ -27,7 +27,7 @@ func init() {
 		Phases: func(tier string, seed int64) []Phase {
 			return []Phase{{Name: "helpers", Run: c16Helpers}, {Name: "constructors", Run: c16Constructors}}
 		},
-		MinObserved: []string{"calls", "sid_pairs", "response_constructor_calls"},
+		MinObserved: []string{"calls", "sid_pairs", "response_constructor_calls", "default_result_codes_checked"},
 	})
 }
 
@@ -578,6 +578,30 @@ func c16Constructors(c *Ctx) {
 				}
 			}
 		}
+		// defaults for unset options: a constructor called without WithResponseCode answers with its default result
+		// code - unwillingToPerform for the general and the modify response, success for bind / extended / search done
+		type coded interface {
+			gldap.Response
+			SetDiagnosticMessage(string)
+		}
+		for _, variant := range [][]gldap.Option{nil, {gldap.WithMatchedDN("dc=x")}, {gldap.WithApplicationCode(gldap.ApplicationAddResponse)}, {gldap.WithDiagnosticMessage("x"), gldap.WithMatchedDN("")}} {
+			for name, mk := range map[string]func() coded{
+				"NewResponse":           func() coded { return req.NewResponse(variant...) },
+				"NewModifyResponse":     func() coded { return req.NewModifyResponse(variant...) },
+				"NewBindResponse":       func() coded { return req.NewBindResponse(variant...) },
+				"NewExtendedResponse":   func() coded { return req.NewExtendedResponse(variant...) },
+				"NewSearchDoneResponse": func() coded { return req.NewSearchDoneResponse(variant...) },
+			} {
+				name, mk := name, mk
+				if msg, st := catch(func() {
+					resp := mk()
+					resp.SetDiagnosticMessage("default-probe:" + name)
+					_ = w.Write(resp)
+				}); msg != "" {
+					c16Panic(c, name, msg, st, "no response code option")
+				}
+			}
+		}
 		fin := req.NewBindResponse(gldap.WithResponseCode(0))
 		fin.SetDiagnosticMessage("battery-done")
 		_ = w.Write(fin)
@@ -636,6 +660,16 @@ func c16Constructors(c *Ctx) {
 			}
 			if res, err := sber.AsResult(m.Op); err == nil && bytes.Equal(res.Diag, []byte("battery-done")) {
 				break
+			} else if err == nil && bytes.HasPrefix(res.Diag, []byte("default-probe:")) {
+				name := string(res.Diag[len("default-probe:"):])
+				want := int64(0)
+				if name == "NewResponse" || name == "NewModifyResponse" {
+					want = 53
+				}
+				c.Count("default_result_codes_checked", 1)
+				if res.Code != want {
+					c.Violate("constructor without WithResponseCode does not answer with its default result code", fmt.Sprintf("%s (on a %s request): result code %d, default is %d", name, kind, res.Code, want), name)
+				}
 			}
 		}
 		select {
